@@ -719,8 +719,8 @@ theorem PV.pickGrow (h : PV p shm pt q f false) {r : Rec} (hpc : p.pc = .needBuf
   · intro r' c' hr'; simp at hr'
 
 /-- pPick, allocation failure: the record is dropped, `curr = -1` -/
-theorem PV.pickFail (h : PV p shm pt q f false) {r : Rec} (hpc : p.pc = .needBuf r) (hs : p.started = true) :
-    PV { p with losts := p.losts + 2, curr := none, pc := .idle, log := p.log ++ [.allocFail, .dropped r] }
+theorem PV.pickFail (h : PV p shm pt q f false) {r : Rec} (n : Nat) (hpc : p.pc = .needBuf r) (hs : p.started = true) :
+    PV { p with losts := p.losts + n, curr := none, pc := .idle, log := p.log ++ [.allocFail, .dropped r] }
       shm pt q f false := by
   have ho := h.c.needBuf r hpc
   refine ⟨h.d.logOnly (by simp [survivors_append, survivors]), ?_, ?_, ?_, ?_, ?_, ?_⟩
@@ -952,6 +952,25 @@ theorem PV.writeHead {closed : Bool} {i : Nat} {q' : List Nat} {b b' : Buf} (h :
     have : c ≠ i := by intro e; subst e; exact hio ho
     rw [dataAt_set_ne _ this]; exact h.c.hdr r c hr hc ho
 
+theorem survivors_dropped (rs : List Rec) : survivors (rs.map Ev.dropped) = [] := by
+  induction rs with
+  | nil => rfl
+  | cons r l ih => simpa [survivors] using ih
+
+/-- pAbandon: counter and ghost log only -/
+theorem PV.abandon (h : PV p shm pt q f false) (n : Nat) (rs : List Rec) (hs : p.started = true) :
+    PV { p with losts := p.losts + n, log := p.log ++ rs.map .dropped } shm pt q f false :=
+  ⟨h.d.logOnly (by simp [survivors_append, survivors_dropped]),
+   ⟨by have := h.c.wb; simpa [sentOpen] using this, by intro hs'; simp [hs] at hs', h.c.needBuf, h.c.live,
+    h.c.picked, h.c.hdr⟩⟩
+
+/-- repaired shmem_finish: the pending count goes out as a LOST message -/
+theorem PV.reportTail {closed : Bool} (h : PV p shm pt q f closed) (hs : p.started = true) (n : Nat) (ms : List Nat) :
+    PV { p with losts := 0, log := p.log ++ [.lostReport n], lostMsgs := ms } shm pt q f closed :=
+  ⟨h.d.logOnly (by simp [survivors_append, survivors]),
+   ⟨by have := h.c.wb; simpa [sentOpen] using this, by intro hs'; simp [hs] at hs', h.c.needBuf, h.c.live,
+    h.c.picked, h.c.hdr⟩⟩
+
 end producer
 
 
@@ -1169,7 +1188,7 @@ theorem inv_pPick {t : Tid} {ok : Bool} (h : Inv s) (hs : step cfg s (.pPick t o
         · injection hs with hs; subst hs
           apply inv_setProd h
           rw [hcl]
-          exact hv.pickFail hpc hst
+          exact hv.pickFail _ hpc hst
   · simp at hs
 
 theorem inv_pStart {t : Tid} (h : Inv s) (hs : step cfg s (.pStart t) = some s') : Inv s' := by
@@ -1216,7 +1235,8 @@ theorem inv_pMark {t : Tid} (h : Inv s) (hs : step cfg s (.pMark t) = some s') :
         exact hv.markNone hpc hst
   · simp at hs
 
-theorem inv_pLostAdd {t : Tid} {n : Nat} (h : Inv s) (hs : step cfg s (.pLostAdd t n) = some s') : Inv s' := by
+theorem inv_pAbandon {t : Tid} {rs : List Rec} {cn : Bool} (h : Inv s)
+    (hs : step cfg s (.pAbandon t rs cn) = some s') : Inv s' := by
   simp only [step] at hs
   split at hs
   · rename_i hg
@@ -1229,25 +1249,8 @@ theorem inv_pLostAdd {t : Tid} {n : Nat} (h : Inv s) (hs : step cfg s (.pLostAdd
     injection hs with hs; subst hs
     apply inv_setProd h
     rw [hcl]
-    exact hv.lostAdd n hst
+    exact hv.abandon _ rs hst
   · simp at hs
-
-theorem inv_pDrop {t : Tid} {r : Rec} (h : Inv s) (hs : step cfg s (.pDrop t r) = some s') : Inv s' := by
-  simp only [step] at hs
-  split at hs
-  · rename_i hg
-    simp only [Bool.and_eq_true] at hg
-    obtain ⟨⟨⟨hce, _⟩, _⟩, _⟩ := hg
-    obtain ⟨hst, _, _, hcl⟩ := canEmit_iff.mp hce
-    have hv := h.view t
-    unfold VInv at hv
-    rw [hcl] at hv
-    injection hs with hs; subst hs
-    apply inv_setProd h
-    rw [hcl]
-    exact hv.drop r hst
-  · simp at hs
-
 
 theorem inv_pPrepare {t : Tid} (h : Inv s) (hs : step cfg s (.pPrepare t) = some s') : Inv s' := by
   simp only [step] at hs
@@ -1281,8 +1284,8 @@ theorem inv_pFinishTrigger {t : Tid} (h : Inv s) (hs : step cfg s (.pFinishTrigg
     simpa [pipeToks_append, pipeToks, qidx] using this
   · simp at hs
 
-theorem inv_pFinish {t : Tid} (h : Inv s) (hs : step cfg s (.pFinish t) = some s') : Inv s' := by
-  simp only [step] at hs
+theorem inv_finishCore {t : Tid} (h : Inv s) (hs : finishCore s t = some s') : Inv s' := by
+  simp only [finishCore] at hs
   split at hs
   · rename_i hg
     simp only [Bool.and_eq_true, beq_iff_eq, Bool.not_eq_true'] at hg
@@ -1322,6 +1325,46 @@ theorem inv_pFinish {t : Tid} (h : Inv s) (hs : step cfg s (.pFinish t) = some s
         exact hv.finishSend hpc hc hst hal hdn
   · simp at hs
 
+theorem send_prod (X : State) (m : Msg) : (X.send m).prod = X.prod := by
+  unfold State.send; split <;> rfl
+
+theorem inv_reportTail {t : Tid} (h : Inv s) (hst : (s.prod t).started = true) : Inv (reportTail cfg t s) := by
+  unfold reportTail
+  simp only []
+  split
+  · rename_i hg
+    simp only [Bool.and_eq_true, Bool.not_eq_true'] at hg
+    have hcl := hg.2
+    rw [send_open _ (by simpa using hcl)]
+    apply inv_setProd_msg h _ _ (fun x _ => by simp [pipeToks])
+    have : pipeToks t [Msg.lost t (s.prod t).losts] = [] := by simp [pipeToks]
+    rw [this, List.append_nil]
+    exact (h.view t).reportTail hst _ _
+  · exact h
+
+theorem finishCore_started {t : Tid} (hs : finishCore s t = some s') : (s'.prod t).started = true := by
+  simp only [finishCore] at hs
+  split at hs
+  · rename_i hg
+    simp only [Bool.and_eq_true] at hg
+    have hst := hg.1.1.1
+    have ite_some : ∀ (c : Prop) [Decidable c] (A B : State),
+        (if c then some A else some B) = some s' → s' = A ∨ s' = B := by
+      intro c _ A B h; split at h <;> injection h with h <;> simp [h]
+    cases hc : (s.prod t).curr with
+    | none => simp only [hc] at hs; injection hs with hs; subst hs; simpa using hst
+    | some c =>
+      simp only [hc] at hs
+      rcases ite_some _ _ _ hs with e | e <;> subst e <;> simp [send_prod, hst]
+  · simp at hs
+
+theorem inv_pFinish {t : Tid} (h : Inv s) (hs : step cfg s (.pFinish t) = some s') : Inv s' := by
+  simp only [step] at hs
+  split at hs
+  · rename_i s1 h1
+    injection hs with hs; subst hs
+    exact inv_reportTail (inv_finishCore h h1) (finishCore_started h1)
+  · simp at hs
 
 theorem vinv_congr {x : Tid} (hv : VInv s x) (hp : s'.prod x = s.prod x)
     (hshm : shmToks x s'.shmemList = shmToks x s.shmemList) (hpipe : pipeToks x s'.pipe = pipeToks x s.pipe)
@@ -1562,8 +1605,7 @@ theorem inv_step {a : Action} (h : Inv s) (hs : step cfg s a = some s') : Inv s'
   | pPick t ok => exact inv_pPick h hs
   | pStart t => exact inv_pStart h hs
   | pMark t => exact inv_pMark h hs
-  | pLostAdd t n => exact inv_pLostAdd h hs
-  | pDrop t r => exact inv_pDrop h hs
+  | pAbandon t rs cn => exact inv_pAbandon h hs
   | pFinish t => exact inv_pFinish h hs
   | pFinishTrigger t => exact inv_pFinishTrigger h hs
   | kill t => exact inv_kill h hs
